@@ -153,7 +153,7 @@ CHECKS = {
             "time must equal the cut by count. Non-trivial = at least one deadline cut executed or >= 3 solves; "
             "distinct = distinct digest of (problem, steps, observations)."
         ),
-        "state_measure": "hash of (algorithm, iterations performed, step kind)",
+        "state_measure": "hash of (algorithm, order, dense/sparse, rank, random/explicit guess, iterations of the baseline, step kind, deadline position / clock kind, precompinds, inexact)",
         "components": {
             "real": REAL_ALL,
             "simulated": ["time module as seen by pyttb.cp_apr (SimClock)", "stdout sink", "ARPACK start vector", "np.random seeded per solve"],
@@ -259,7 +259,7 @@ CHECKS = {
         "manifest": {
             "engine": "object-heap",
             "design_ref": "DESIGN.md section 3, engine B",
-            "level_text": "Seeded search over histories on a heap of up to 14 live objects of all seven classes plus loose arrays: each step applies one of ~230 catalogued public operations (every class, constructors with both copy flags, module functions, the five algorithm entry points) to operands drawn from the heap, or injects a perturbation (an in-place write into one buffer of one live object at that instant). After every step: operands bit-identical to their snapshots, no result buffer shares memory (np.shares_memory, exact) with any live object outside its documented no-copy group, a perturbation is invisible in every object outside the perturbed alias group (so transitive chains are reached), in-place operations change their receiver's group only.",
+            "level_text": "Seeded search over histories on a heap of up to 14 live objects of all seven classes plus loose arrays: each step applies one of 207 catalogued public operations (every class, constructors with both copy flags, module functions, the five algorithm entry points) to operands drawn from the heap, or injects a perturbation (an in-place write into one buffer of one live object at that instant). After every step: operands bit-identical to their snapshots, no result buffer shares memory (np.shares_memory, exact) with any live object outside its documented no-copy group, a perturbation is invisible in every object outside the perturbed alias group (so transitive chains are reached), in-place operations change their receiver's group only.",
             "level_note": "Trusted: the snapshot/alias-group model (sim/engine_b.py Heap), np.shares_memory. Permitted sharing: copy=False constructors, to_tenmat/to_tensor(copy=False), identity of in-place operations, the caller's initial guess returned by an algorithm. Recorded known findings are tolerated by name only for the operation they were found on.",
             "technique": "deterministic simulation: object-heap histories with perturbation (in-place write) injection against a snapshot + alias-group reference model",
         },
@@ -280,7 +280,7 @@ CHECKS = {
         "manifest": {
             "engine": "object-heap",
             "design_ref": "DESIGN.md section 3, engines A and B (C19 facet), Appendix A",
-            "level_text": "Fault kind 'malformed request' injected into the histories of engine A (indexing on a dense+sparse pair: value count != subscript count, too few subscript columns, linear write beyond the extent, region right-hand side of the wrong shape, negative entries in a sparse subscript array) and engine B (~60 recipes across all classes, module functions and algorithm entry points: shape mismatches between heap operands of different shapes, wrong-length vectors, wrong-size matrices, factor lists of the wrong length / column / row count, mode arguments out of range / negative / repeated / dims together with exclude_dims, non-permutations, element-count-changing reshapes, inconsistent constructor components, bad algorithm options). Oracle: the call raises AND every live object on the heap is bit-identical to its snapshot afterwards; the history then continues, so a partial mutation that is invisible at once is caught by later steps. Each recipe re-establishes from the actual operands that the request really violates the precondition.",
+            "level_text": "Fault kind 'malformed request' injected into the histories of engine A (indexing on a dense+sparse pair: value count != subscript count, too few subscript columns, linear write beyond the extent, region right-hand side of the wrong shape, negative entries in a sparse subscript array) and engine B (69 recipes across all classes, module functions and algorithm entry points: shape mismatches between heap operands of different shapes, wrong-length vectors, wrong-size matrices, factor lists of the wrong length / column / row count, mode arguments out of range / negative / repeated / dims together with exclude_dims, non-permutations, element-count-changing reshapes, inconsistent constructor components, bad algorithm options). Oracle: the call raises AND every live object on the heap is bit-identical to its snapshot afterwards; the history then continues, so a partial mutation that is invisible at once is caught by later steps. Each recipe re-establishes from the actual operands that the request really violates the precondition.",
             "level_note": "Only violations that C19's statement names are injected. Trusted: the recipes' malformedness predicates (sim/catalog_b_bad.py), the snapshot model. The plain sptensor constructor documents 'no validation' apart from subscripts fitting the shape, so only that is a recipe.",
             "technique": "deterministic simulation: malformed-request fault injection into seeded object histories; oracle = rejected and all live state unchanged",
         },
